@@ -271,6 +271,9 @@ static void ZSTD_initDCtx_internal(ZSTD_DCtx* dctx)
     dctx->isFrameDecompression = 1;
 #if DYNAMIC_BMI2
     dctx->bmi2 = ZSTD_cpuSupportsBmi2();
+# ifdef ZSTD_VERIF_SIM
+    if (ZSTD_VERIF_COIN(ZSTD_VC_disableBmi2)) dctx->bmi2 = 0;   /* the non-BMI2 code paths are valid on every CPU */
+# endif
 #endif
     dctx->ddictSet = NULL;
     ZSTD_DCtx_resetParameters(dctx);
